@@ -1,29 +1,22 @@
 """C09 -- corrupted or non-DEX input is rejected at the header, before any structure is parsed.
 
-Rule (CFG path rule + provenance, nothing is executed):
-(1) roles.  In HeaderItem.__init__ the one `unpack` of `<buffer param>.read(N)` is located;
-    its format literal is laid out with struct.calcsize and the targets that receive the bytes
-    at offsets 0 (magic, 8s), 8 (checksum, u32), 36 (header_size, u32) are the *role holders*
-    (found by offset, not by name).  `read_at` (androguard/util.py) is symbolically executed
-    once to establish that it returns `size` bytes from `offset` (default size -1 = to EOF)
-    and restores the position.
-(2) guards.  For each of size / magic / checksum / header_size there must be an `if` whose
-    test, evaluated with the checker's own semantics at every point of a finite partition of
-    the wrong values (all lengths 0..0x6f; every wrong byte at the magic positions 0,1,2,3,7;
-    every order type of (adler32, checksum, constants of the test); every cell of the integer
-    partition induced by the constants for header_size), selects an arm from which the normal
-    exit of the function is unreachable in the CFG, and which lies on every path entry->exit.
-    A guard inside a `try` whose handler may catch the exception and does not re-raise fails.
-(3) checksum operand: adler32 is applied to read_at(buffer, offset+12) with no size (to EOF)
-    and compared with the checksum role holder.
-(4) endian tag: DalvikPacker.__init__ is executed path by path for every cell of the integer
-    partition induced by its constants: 0x12345678 falls through, every other value raises
-    (NotImplementedError/ValueError); HeaderItem.__init__ calls it on every path to the exit
-    with the little-endian u32 read at header offset 40.
-(5) ordering: in DEX._load the HeaderItem(...) statement lies on every path to the exit and
-    dominates every other construction of a class that reads a buffer and every use of the
-    buffer; DEX.__init__ reaches _load on every path, with nothing reading the buffer before;
-    neither call sits in a `try` that swallows ValueError/NotImplementedError.
+Rule (interpretation of the source on abstract points + CFG ordering; the repository is never imported):
+(1) HeaderItem.__init__ is *interpreted* (agstatic/minipy.py: own semantics; helper methods, static methods, module
+    constants, zip/setattr loops, locals, early returns, try/except are simply executed) on a model of the stream
+    (tell/seek/read, struct unpacking of regions).  The bytes at header offsets 0 (8s), 8, 36, 40 (little-endian u32) and
+    the buffer length are *partition values*; every other header field is unconstrained (`Free`): a comparison on it is a
+    choice point and both outcomes are explored.
+(2) For every point of a finite partition of the wrong values -- all lengths 0..0x6f; every wrong byte at the magic
+    positions 0,1,2,3,7 (both dex/dey); every ordered pair (adler32, stored checksum) and every header_size / endian tag
+    over the integer partition induced by the constants the code compares them with (the partition is refined until it is
+    closed under the comparisons actually executed) -- *every* explored path must end in ValueError/NotImplementedError.
+    A path that runs to the normal end is a positively established acceptance of a wrong header (violation); a
+    struct.error escaping is reported as such; anything the interpreter cannot model is exit 2.
+(3) The Adler-32 operand is the stream region [offset+12, EOF) (known exactly from the modelled reads).
+(4) DalvikPacker(tag) on its own: 0x12345678 constructs and yields struct.Struct('<'+fmt); every other cell raises.
+(5) Ordering (CFG): in DEX._load the HeaderItem(...) statement lies on every path to the exit and dominates every other
+    construction of a buffer-reading class and every use of the buffer; DEX.__init__ reaches _load on every path with
+    nothing reading the buffer before; neither call sits in a `try` that swallows ValueError/NotImplementedError.
 """
 from __future__ import annotations
 
@@ -48,45 +41,6 @@ ENDIAN_CONSTANT = 0x12345678
 GOOD_MAGICS = [b"dex\n035\x00", b"dey\n036\x00"]
 MAGIC_CONSTRAINED = {0: {0x64}, 1: {0x65}, 2: {0x78, 0x79}, 3: {0x0A}, 7: {0x00}}
 REJECT_EXC = ("ValueError", "NotImplementedError")
-
-
-def _fmt_slots(fmt):
-    """'<8sI20s20I' -> [(offset, size, code)] one entry per unpacked value"""
-    order = fmt[0] if fmt and fmt[0] in "<>=!@" else ""
-    body = fmt[len(order):]
-    if order not in ("<",):
-        raise AnalysisError("header format %r is not explicitly little-endian" % fmt)
-    out = []
-    pos = 0
-    for cnt, code in re.findall(r"\s*(\d*)([xcbB?hHiIlLqQefdsp])", body):
-        n = int(cnt) if cnt else 1
-        if code in "sp":
-            out.append((pos, n, code))
-            pos += n
-        elif code == "x":
-            pos += n
-        else:
-            sz = struct.calcsize("<" + code)
-            for _ in range(n):
-                out.append((pos, sz, code))
-                pos += sz
-    if pos != struct.calcsize(fmt):
-        raise AnalysisError("cannot lay out format %r" % fmt)
-    return out
-
-
-def _root_name(e):
-    while True:
-        if isinstance(e, ast.Name):
-            return e.id
-        if isinstance(e, ast.Attribute):
-            e = e.value
-        elif isinstance(e, ast.Call):
-            e = e.func
-        elif isinstance(e, ast.Subscript):
-            e = e.value
-        else:
-            return None
 
 
 def _mentions(expr, keys):
@@ -271,10 +225,13 @@ class Core:
         strange = [o for o in outs if o[1][0] == "raise" and o[1][1] not in REJECT_EXC]
         if strange:
             raise AnalysisError("interpreting HeaderItem.__init__ on a valid header ended in %s at `%s`" % (strange[0][1][1], norm(strange[0][1][2])[:60] if strange[0][1][2] is not None else "?"))
+        self.valid_rejected = None
         if not oks:
             o = outs[0][1]
-            raise AnalysisError("a valid header is rejected by the interpreted HeaderItem.__init__ (%s at `%s`): the model does not fit the code" % (o[1], norm(o[2])[:60] if o[2] is not None else "?"))
-        ctx.ob("model", "valid header is accepted", True, "valid header (dex 035, header_size 0x70, endian 0x12345678, adler == checksum): %d paths, %d accepted" % (len(outs), len(oks)))
+            # either an inverted guard (then a wrong-value family below is accepted and reported) or a model that does not fit
+            self.valid_rejected = "a valid header is rejected by the interpreted HeaderItem.__init__ (%s at `%s`)" % (o[1], norm(o[2])[:60] if o[2] is not None else "?")
+        else:
+            ctx.ob("model", "valid header is accepted", True, "valid header (dex 035, header_size 0x70, endian 0x12345678, adler == checksum): %d paths, %d accepted" % (len(outs), len(oks)))
         # ---- checksum operand (positively known region)
         seen = set()
         for it, out in outs:
@@ -287,7 +244,7 @@ class Core:
                 ctx.check("checksum/operand", "adler32 operand is bytes [12, EOF) of the header's file", start == CHECKSUM_FROM and size is None, f, node,
                           "the Adler-32 is computed over bytes [%s, %s) relative to the header, not over [12, EOF)" % (start, "EOF" if size is None else start + size),
                           node=node, detail="adler32 over stream bytes [offset+%s, %s)" % (start, "EOF" if size is None else start + size))
-        if not seen:
+        if not seen and not self.valid_rejected:
             ctx.check("checksum/operand", "adler32 is computed", False, self.hdr, "no adler32 call", "no Adler-32 is computed on the path of a valid header", node=self.hdr.node)
         # ---- families
         self.closed("nbytes", lambda: [("a %d byte buffer" % n, dict(V, nbytes=n)) for n in range(0, HEADER_LEN)],
@@ -313,6 +270,8 @@ class Core:
         self.closed("endian", lambda: [("endian_tag=0x%08x" % v, dict(V, endian=v)) for v in self.pts_int("endian", ENDIAN_CONSTANT, (0x78563412,))],
                     lambda pts: self.family("endian", "endian_tag != 0x12345678 is rejected by HeaderItem.__init__", "an endian tag other than 0x12345678", pts))
         ctx.count("interpreted_runs", self.n_runs)
+        if self.valid_rejected and not ctx.findings:
+            raise AnalysisError(self.valid_rejected + ": the model does not fit the code")
 
     # ------------------------------------------------------------------ DalvikPacker on its own
     def check_packer(self):
@@ -343,16 +302,19 @@ class Core:
             return res
         good = build(ENDIAN_CONSTANT)
         ctx.count("guards")
+        good_rejected = None
         if not all(o[0] == "ok" for o in good):
-            raise AnalysisError("DalvikPacker(0x12345678) does not construct in the interpreter (%s): the model does not fit the code" % (good[0][1],))
-        # the prefix handed to struct
-        try:
-            st = good[0][2].call(good[0][2].get_attr(good[0][1], "__getitem__"), ["I"], {})
-        except (NotEvaluable, PyRaise) as e:
-            raise AnalysisError("DalvikPacker.__getitem__ left the interpretable fragment: %s" % e)
-        le = isinstance(st, StructV) and st.fmt == "<I"
-        ctx.ob("endian/prefix", "DalvikPacker(0x12345678)['I'] is struct.Struct('<I')", le, "interpreted: %s" % (getattr(st, "fmt", st),))
-        ctx.require(le, "DalvikPacker[fmt] is not struct.Struct('<' + fmt) for the little-endian tag")
+            # an inverted/shifted test (then another tag is accepted below and reported) or a model that does not fit
+            good_rejected = "DalvikPacker(0x12345678) does not construct in the interpreter (%s)" % (good[0][1],)
+        else:
+            # the prefix handed to struct
+            try:
+                st = good[0][2].call(good[0][2].get_attr(good[0][1], "__getitem__"), ["I"], {})
+            except (NotEvaluable, PyRaise) as e:
+                raise AnalysisError("DalvikPacker.__getitem__ left the interpretable fragment: %s" % e)
+            le = isinstance(st, StructV) and st.fmt == "<I"
+            ctx.ob("endian/prefix", "DalvikPacker(0x12345678)['I'] is struct.Struct('<I')", le, "interpreted: %s" % (getattr(st, "fmt", st),))
+            ctx.require(le, "DalvikPacker[fmt] is not struct.Struct('<' + fmt) for the little-endian tag")
         bad = []
         outcomes = {}
         for _ in range(5):
@@ -376,6 +338,8 @@ class Core:
         ctx.check("endian/reject", "every endian_tag != 0x12345678 raises (%d cells of the constant partition)" % len(outcomes), not bad, pk,
                   "endian_tag != 0x12345678", "DalvikPacker accepts endian tag(s) other than 0x12345678: %s" % ", ".join(wit), node=pk.node, witness=wit,
                   detail="cells: %s" % ", ".join("0x%x:%s" % (v, "/".join(sorted({o[1] if o[0] == "raise" else "ok" for o in outs}))) for v, outs in sorted(outcomes.items())))
+        if good_rejected and not bad:
+            raise AnalysisError(good_rejected + ": the model does not fit the code")
 
     # ------------------------------------------------------------------ ordering
     def parser_classes(self):
@@ -654,7 +618,6 @@ def thorough(ctx):
     mutants.append(("header_size compared with 0x74", hdr, _replace_const(0x70, 0x74, lambda n: isinstance(n, ast.If))))
     mutants.append(("DalvikPacker: else-raise -> warning", pk, _raise_to_pass(lambda n: True)))
     mutants.append(("DalvikPacker: accepts 0x12345679 instead", pk, _replace_const(0x12345678, 0x12345679)))
-    mutants.append(("DalvikPacker call wrapped in try", hdr, _wrap_try(lambda s: "DalvikPacker(" in ast.unparse(s) and isinstance(s, ast.Assign))))
     mutants.append(("_load: HeaderItem moved after the map", load, _move_first_to_end(lambda s: "HeaderItem(" in ast.unparse(s))))
     mutants.append(("_load: HeaderItem wrapped in try", load, _wrap_try(lambda s: "HeaderItem(" in ast.unparse(s))))
     mutants.append(("__init__: _load wrapped in try", init, _wrap_try(lambda s: "self._load(" in ast.unparse(s))))
